@@ -25,7 +25,8 @@ SCALAR_ERRORS = [True, 1, -32000, 1.5, "e", "code", "xcodex", "message", [1], ["
                  {"a": 1, "b": 2}, {"message": "m", "data": 1}]
 ENVELOPES = ["2.0-error-only", "2.0-both", "1.0-null-result", "1.0-with-result"]
 IDS = [1, None]
-ENTRIES = ["check_for_errors", "check_for_errors/ordered", "check_for_errors/subclass", "call", "notify", "multicall-0", "multicall-1", "multicall-2", "multicall-iter-1"]
+ENTRIES = ["check_for_errors", "check_for_errors/ordered", "check_for_errors/subclass", "call", "notify", "multicall-0", "multicall-1", "multicall-2", "multicall-iter-1",
+           "notifications-only-0", "notifications-only-iter-0", "multicall-reread-1"]
 
 
 def error_objects():
@@ -88,6 +89,18 @@ def invoke(entry, reply):
             if entry == "call":
                 return ("ret", p.m(1))
             return ("ret", p._notify.m(1))
+        if entry.startswith("notifications-only"):
+            # a batch made of notifications only, to which the peer nevertheless replies with this object
+            t = CannedTransport([json.dumps([reply])])
+            p = jsonrpclib.ServerProxy("http://h/", transport=t)
+            mc = jsonrpclib.MultiCall(p)
+            mc._notify.a(1)
+            mc._notify.b(2)
+            results = mc()
+            if entry.endswith("iter-0"):
+                seen = list(results)
+                return ("ret", seen[0] if seen else ("NOTHING-TO-READ", len(seen)))
+            return ("ret", results[0])
         pos = int(entry[-1])
         others = [{"jsonrpc": "2.0", "id": "o%d" % i, "result": "other%d" % i} for i in range(3)]
         batch = list(others)
@@ -99,6 +112,14 @@ def invoke(entry, reply):
         mc.b(2)
         mc.c(3)
         results = mc()
+        if entry.startswith("multicall-reread"):
+            # read a later position first, then come back to this one (twice)
+            assert results[pos + 1] == "other%d" % (pos + 1)
+            try:
+                results[pos]
+            except J.ProtocolError:
+                pass
+            return ("ret", results[pos])
         if entry.startswith("multicall-iter"):
             seen = []
             try:
@@ -420,7 +441,7 @@ LEGS = {"errors": leg_errors, "success": leg_success, "after-fault": leg_after_f
 META = {
     "technique": "bounded-exhaustive enumeration of reply objects x client entry points against a reference error classifier",
     "rule": "error member ranges over scalar/array/single-entry shapes and over every object of the grammar code(22) x message(5) x "
-    "trace(2) x data(5); x 4 envelope forms x id {1,null} x 9 entry points (check_for_errors on dict replies, on OrderedDict replies and on dict/list-subclass replies, call, notification, MultiCall access at 3 positions, iteration); success side: every JSON value (depth<=1 quick, <=2 thorough) x "
+    "trace(2) x data(5); x 4 envelope forms x id {1,null} x 12 entry points (check_for_errors on dict replies, on OrderedDict replies and on dict/list-subclass replies, call, notification, MultiCall access at 3 positions, iteration, re-reading a position after a later one, a notifications-only batch that is answered anyway); success side: every JSON value (depth<=1 quick, <=2 thorough) x "
     "3 envelope forms x 9 entry points; after-fault: an error reply following a truncated / non-JSON / non-200 exchange (bodies larger than the read size) on the "
     "same proxy through the real transport over the in-memory network; scale: batches of 1100/2500 (thorough 20000) results with the error entry first / in the "
     "middle / last / everywhere / nowhere, read by index and by iteration; 300 and 3000 calls on one proxy (errors then a result, results then an error, alternating); "
